@@ -3,7 +3,8 @@ import sys, os
 sys.path.insert(0, os.path.dirname(os.path.abspath(__file__)))
 from driver_base import main
 import numpy as np
-from qce_circuit.structure.acquisition_indexing.kernel_repetition_code import RepetitionExperimentKernel
+from qce_circuit.structure.acquisition_indexing.kernel_repetition_code import RepetitionExperimentKernel, RepetitionIndexKernel
+from qce_circuit.structure.acquisition_indexing.kernel_calibration import QutritCalibrationIndexKernel
 from qce_circuit.structure.acquisition_indexing.intrf_stabilizer_index_kernel import StateKey
 from qce_circuit.connectivity.intrf_channel_identifier import QubitIDObj
 
@@ -54,25 +55,28 @@ def handle(c):
         e = RepetitionExperimentKernel(rounds=list(c['rounds']), heralded_initialization=c['h'], qutrit_calibration_points=c['c'],
                                        involved_data_qubit_ids=data, involved_ancilla_qubit_ids=anc, experiment_repetitions=c['reps'])
         L = ints(e.kernel_cycle_length)
-        L_rep = ints(e.indexing_kernels[-2].stop_index - e.start_index + 1)      # repetition kernels only (diagnostic for F15)
+        rep_k = [k for k in e.indexing_kernels if isinstance(k, RepetitionIndexKernel)]
+        L_rep = ints(rep_k[-1].stop_index - e.start_index + 1)      # repetition kernels only (an extra probe size)
         sizes = [c['reps'] * L, c['reps'] * L + 1, c['reps'] * L_rep, c['reps'] * L_rep + 1] + [int(s) for s in c.get('sizes', [])]
-        return {'L': L, 'L_rep': L_rep, 'sizes': sizes, 'ests': [estimate(c, s) for s in sizes]}
+        return {'L': L, 'sizes': sizes, 'ests': [estimate(c, s) for s in sizes]}
     q = qid(c['q'])
     e = RepetitionExperimentKernel(rounds=list(c['rounds']), heralded_initialization=c['h'], qutrit_calibration_points=c['c'],
                                    involved_data_qubit_ids=data, involved_ancilla_qubit_ids=anc, experiment_repetitions=c['reps'])
     kernels = e.indexing_kernels
-    reps_k, cal = kernels[:-1], kernels[-1]
+    reps_k = [k for k in kernels if isinstance(k, RepetitionIndexKernel)]
+    cals = [k for k in kernels if isinstance(k, QutritCalibrationIndexKernel)]      # present iff the experiment has calibration points
+    assert kernels == reps_k + cals, 'unexpected kernel order / kind'
     out = {'start': ints(e.start_index), 'stop': ints(e.stop_index), 'L': ints(e.kernel_cycle_length), 'klen': ints(e.kernel_length),
            'xreps': ints(e.experiment_repetitions)}
     out['ks'] = [{'n': ints(k.nr_repeated_parities), 'start': ints(k.start_index), 'stop': ints(k.stop_index), 'len': ints(k.kernel_length),
                   'her': ints(k.get_heralded_measurement_index(q)), 'stab': ints(k.get_ordered_stabilizer_measurement_indices(q)),
                   'fin': ints(k.get_final_measurement_index(q)), 'contains': ints(k.contains(q))} for k in reps_k]
-    out['cal'] = {'start': ints(cal.start_index), 'stop': ints(cal.stop_index), 'len': ints(cal.kernel_length),
-                  'her': [ints(cal.get_heralded_state_0_measurement_index(q)), ints(cal.get_heralded_state_1_measurement_index(q)),
-                          ints(cal.get_heralded_state_2_measurement_index(q))],
-                  'st': [ints(cal.get_state_0_measurement_index(q)), ints(cal.get_state_1_measurement_index(q)),
-                         ints(cal.get_state_2_measurement_index(q))],
-                  'contains': ints(cal.contains(q))}
+    out['cal'] = [{'start': ints(cal.start_index), 'stop': ints(cal.stop_index), 'len': ints(cal.kernel_length),
+                   'her': [ints(cal.get_heralded_state_0_measurement_index(q)), ints(cal.get_heralded_state_1_measurement_index(q)),
+                           ints(cal.get_heralded_state_2_measurement_index(q))],
+                   'st': [ints(cal.get_state_0_measurement_index(q)), ints(cal.get_state_1_measurement_index(q)),
+                          ints(cal.get_state_2_measurement_index(q))],
+                   'contains': ints(cal.contains(q))} for cal in cals]
     out['qs'] = [{'n': n, 'her': ints(e.get_heralded_cycle_acquisition_indices(q, n)),
                   'sp': ints(e.get_stabilizer_and_projected_cycle_acquisition_indices(q, n)),
                   'proj': ints(e.get_projected_cycle_acquisition_indices(q, n))} for n in c['queries']]
